@@ -38,6 +38,10 @@ impl PosView {
         Big::i(self.cum).sub(Big::i(self.pos.ckpt)).mul(Big::i(self.pos.size)).div(Big::u(self.d))
     }
     pub fn pnl_for(&self, notional_now: u128) -> Big {
+        if self.abs_size == 0 {
+            // a zero-size record has no exposure
+            return Big::zero();
+        }
         if self.pos.long_dir {
             Big::u(notional_now).sub(Big::u(self.pos.notional))
         } else {
